@@ -2,6 +2,7 @@
 random.Random(f"{seed}/{prop}/{stratum}/{index}") so any case is reproducible from those four."""
 from __future__ import annotations
 import random
+import numpy as np
 import string
 
 from . import schema
@@ -382,6 +383,18 @@ def frame_spec(r: random.Random, mx=None, rows=None, nch=None, sources=('inline'
         w['from_idx'] = a
         w['to_idx'] = r.choice([b, b, None]) if True else b
     sp['write'] = w
+    return sp
+
+
+def int_cast_spec(r: random.Random, **kw) -> dict:
+    """Frames of integer channels declared with ANOTHER integer cast dtype, holding values outside the target's range:
+    the cast is numpy's (modular) conversion whatever the kind of data source."""
+    ints = ('int8', 'int16', 'int32', 'uint8', 'uint16', 'uint32')
+    sp = frame_spec(r, casts=False, dtypes=ints, fills=('rand', 'special'), **kw)
+    for o in sp['ops']:
+        if o['op'] == 'channel' and r.random() < 0.7:
+            cur = o['data']['dtype'][1:]
+            o['cast_dtype'] = {'$dtype': r.choice([d for d in ints if np.dtype(d).str[1:] != cur]), 'as': r.choice(['type', 'dtype'])}
     return sp
 
 
